@@ -134,7 +134,7 @@ inductive NumOrMoney : Tok Rat → Prop
 
 macro "match_phrase" : tactic => `(tactic|
   (refine ⟨_, rfl, ?_, ?_⟩ <;>
-   simp [findMatch, findMatch.go, ti, tiText, tiOp, pct, num, mon, infoEq, tokEq, tokFieldCompare, fieldNameOf,
+   simp [findMatch, findMatch.go, sameTok, ti, tiText, tiOp, pct, num, mon, infoEq, tokEq, tokFieldCompare, fieldNameOf,
      Field.name, Fields.insert, Tok.typeName, Item.typeName, lowerEq, fieldsNP, Op.ofChar]))
 
 theorem phrase_of_1 (v : Tok Rat) (hv : NumOrMoney v) (p : Rat) :
